@@ -280,6 +280,18 @@ theorem Shp.thenR {G : String → Prop} {c c1 c2 : CState} {sc : Scope} {rs : Li
     (h2 : ∀ sc1 pool1, c1.scopes = sc1 :: rs → c1.pools = pool1 :: ps → StepR c1 c2 sc1 rs pool1 ps) : Shp G c c2 sc rs pool ps :=
   h1.trans (fun sc1 pool1 hs1 hp1 _ hL1 => (h2 sc1 pool1 hs1 hp1).shp hs1 hL1)
 
+theorem StepR.mapLen {c c' : CState} {sc : Scope} {rs : List Scope} {pool : List KConst} {ps : List (List KConst)}
+    (h : StepR c c' sc rs pool ps) (hm : c.map.length = c.buf.length) : c'.map.length = c'.buf.length := by
+  obtain ⟨ra', more, seg, segm, hc, hl⟩ := h
+  rw [hc]; simp [hm, hl]
+
+/-- transitivity carrying the map / code length invariant -/
+theorem Shp.transM {G : String → Prop} {c c1 c2 : CState} {sc : Scope} {rs : List Scope} {pool : List KConst} {ps : List (List KConst)}
+    (hm : c.map.length = c.buf.length) (h1 : Shp G c c1 sc rs pool ps)
+    (h2 : ∀ sc1 pool1, c1.scopes = sc1 :: rs → c1.pools = pool1 :: ps → sc1.top = sc.top → LkL G c1.scopes →
+          c1.map.length = c1.buf.length → Shp G c1 c2 sc1 rs pool1 ps) : Shp G c c2 sc rs pool ps :=
+  h1.trans (fun sc1 pool1 a b c d => h2 sc1 pool1 a b c d (h1.mapLen hm))
+
 /-- the mapping cursor does not matter -/
 theorem Shp.recur {G : String → Prop} {c c1 : CState} {q : Pos} {sc : Scope} {rs : List Scope} {pool : List KConst} {ps : List (List KConst)}
     (h : Shp G { c with cur := q } c1 sc rs pool ps) : Shp G c { c1 with cur := c.cur } sc rs pool ps := by
